@@ -15,6 +15,7 @@ from tables import const_eval
 from r_io import all_bodies, _closure_body
 from r_poll import _parents, _ancestors
 import catalogue as CAT
+from peval import Adt
 
 ERR_ADTS = ("common::error::Error", "v5::error::ErrorV5")
 
@@ -181,16 +182,24 @@ def h_raise(F, R):
     # from_u8 tables raise the documented variant with the scrutinee byte
     from r_tables import code_enums
     from tables import find_param_match
+    from r_pe import pe_from_u8_table
     for enum_path, fid in code_enums(F):
         name = enum_path.rsplit("::", 1)[1]
         want = CAT.FROM_U8_ERRORS.get(name)
-        b = nbody(F, fid)
-        errs = [x for x in walk_all(b) if x.get("k") == "Adt" and x.get("adt") in ERR_ADTS and x["variant"] != "Common"]
-        if want is None:
-            R.check(not errs, "H-raise", "from_u8/%s" % name, "%s::from_u8 raises %s (documented: returns None)" % (name, [e["variant"] for e in errs]), where=fid)
-        else:
-            ok = len(errs) == 1 and errs[0]["variant"] == want
-            R.check(ok, "H-raise", "from_u8/%s" % name, "%s::from_u8 raises %s (documented: %s)" % (name, [e["variant"] for e in errs], want), where=fid)
+        # evaluated for all 256 bytes: every rejected byte is reported the documented way (None, or the documented variant carrying that byte)
+        _table, rejects = pe_from_u8_table(F, fid, enum_path)
+        bad = []
+        for byte, ev in sorted(rejects.items()):
+            if want is None:
+                if ev is not None:
+                    bad.append((byte, repr(ev)[:60]))
+            else:
+                okk = isinstance(ev, Adt) and ev.variant == want and list(ev.fields.values())[-1:] == [byte]
+                if not okk:
+                    bad.append((byte, repr(ev)[:60]))
+        R.check(not bad, "H-raise", "from_u8/%s" % name,
+                "%s::from_u8 reports %d rejected bytes differently from the documentation (%s): e.g. %s" % (
+                    name, len(bad), ("None" if want is None else "%s(byte)" % want), bad[:2]), where=fid)
     # EmptySubscription: evaluated on a frame that ends after the identifier (r_pe3.h_empty_subscription)
     r_pe3.h_empty_subscription(F, R)
     R.sample({"rule": "H-raise", "variants": {v: len(l) for v, l in sorted(by_variant.items())}})
